@@ -88,7 +88,8 @@ Tick(n, d) == IF n = NoTime THEN NoTime ELSE Cap(n + d, LifeTTL + 2)
 \*                 hold a positive answer) - before that the cache TTL is the documented delay
 LifeGhosts == [sinceRevoke : -1..(LifeTTL + 2), sinceOut : -1..(LifeTTL + 2)]
 
-OutNow(i, gc, p) == p.group /\ i.member # "yes" /\ gc # "member"
+\* (only where the group rule is the user's only way in: with an e-mail rule that admits her she stays authorised)
+OutNow(i, gc, p) == p.group /\ ~p.email /\ i.member # "yes" /\ gc # "member"
 
 -----------------------------------------------------------------------------
 (* End-to-end rules (evaluated on every request step: model and real chain)  *)
@@ -113,8 +114,10 @@ E_DeniedAtOnce(c, g, lg, p, i, gc, req, o) ==
 
 \* a session the IdP vouches for keeps working, whatever happened before
 E_KeepsWorking(c, g, lg, p, i, gc, req, o) ==
-   (req.kind = "page" /\ NonSkip(req) /\ Sound(c, p) /\ i.avail = "up" /\ i.fam = "live" /\ (p.group => (i.member = "yes" \/ gc = "member")))
+   (req.kind = "page" /\ NonSkip(req) /\ Sound(c, p) /\ i.avail = "up" /\ i.fam = "live" /\ (p.group => (gc = "member" \/ (gc = "empty" /\ i.member = "yes"))))    \* the cache's answer counts until it expires, either way
       => (o.reached /\ o.after.kind = "sess")
+\* (a user admitted by an e-mail rule to an upstream that ALSO has group rules, and who is in none of the groups,
+\*  is refused at her first revalidation by the code: that is known finding D3 of C11; this rule does not speak of her)
 
 \* IdP trouble alone never ends a session whose checks are not due
 E_NoCheckNoCall(c, g, lg, p, i, gc, req, o) ==
@@ -153,15 +156,18 @@ ReGhost(l0, i, gc, p) ==
     sinceOut    |-> IF OutNow(i, gc, p) THEN (IF l0.sinceOut = NoTime THEN 0 ELSE l0.sinceOut) ELSE NoTime]
 
 \* the whole login (ProxyLogin.tla / SSO.tla cover its gates): the IdP mints a new token family; the proxy's
-\* callback asks /profile when the upstream has group rules and refuses a non-member
+\* callback asks /profile when the upstream has group rules; the user of this model has an address every e-mail
+\* rule admits, so only a group-only upstream refuses a non-member (any rule suffices at login)
 LLogin ==
    /\ ck.kind = "none" /\ idp.avail = "up"
    /\ LET i2 == [idp EXCEPT !.fam = "live"]
-          okg == ~pol.group \/ ChainProfile(i2, gcache) = "member"
+          prof == IF pol.group THEN ChainProfile(i2, gcache) ELSE "na"
+          okg == pol.email \/ prof = "member"
           gc2 == IF pol.group THEN CacheAfter(i2, gcache, {"profile"}) ELSE gcache
+          gp == IF pol.group /\ prof # "member" THEN "out" ELSE "in"
       IN /\ idp' = i2
          /\ gcache' = gc2
-         /\ ck' = IF okg THEN Sess(TRUE, TRUE, LifeTTL, TokTTL, ValidTTL, NoGrace, "match", TRUE, "old", "in") ELSE NoCookie
+         /\ ck' = IF okg THEN Sess(TRUE, TRUE, LifeTTL, TokTTL, ValidTTL, NoGrace, "match", TRUE, "old", gp) ELSE NoCookie
          /\ gh' = IF okg THEN FreshGhosts ELSE NoGhosts
          /\ lg' = ReGhost(lg, i2, gc2, pol)
          /\ last' = [ev |-> "login", ok |-> okg]
